@@ -1,6 +1,8 @@
 package checks
 
 import (
+	"sigs.k8s.io/karpenter/pkg/controllers/disruption"
+	"verif/internal/explore"
 	"fmt"
 	"os"
 	"strings"
@@ -33,4 +35,38 @@ func Debug17() {
 		}()
 		fmt.Println("pass", i, len(seen))
 	}
+}
+
+// Debug08 explores one C08 scenario at bound 2 and prints the context of a replay divergence.
+func Debug08(idx int) {
+	sc := c08Scenarios[idx]
+	var last *explore.Run
+	var lastHist []string
+	ex := &explore.Explorer{Bound: 2}
+	ex.Exec = func(run *explore.Run) {
+		last = run
+		x := &c08Run{env: buildDisrupt(sc.world()), sc: sc, deletedBy: map[string]string{}, deletedByCmd: map[string]*disruption.Command{}, everInit: map[string]bool{}}
+		defer func() {
+			if p := recover(); p != nil {
+				if _, ok := p.(explore.Diverged); ok && len(run.Plan()) > 0 {
+					panic(p)
+				}
+				fmt.Println("panic:", p)
+				fmt.Println("choices so far:", run.Choices())
+				for i, pt := range run.Trace {
+					fmt.Printf("  %d %s n=%d chosen=%d\n", i, pt.Kind, pt.N, pt.Chosen)
+				}
+				fmt.Println("history:", x.history)
+				for _, c := range callStrings(x.env.W) {
+					fmt.Println("  call:", c)
+				}
+				os.Exit(1)
+			}
+		}()
+		x.run(run, 24, !sc.fanout)
+		lastHist = x.history
+	}
+	ex.Explore()
+	_ = last
+	fmt.Println("execs", ex.Execs, "diverged", ex.Diverged, "invalid", ex.Invalid, "last history", lastHist)
 }
